@@ -13,9 +13,10 @@ use wirm::iterator::iterator_trait::{IteratingInstrumenter, Iterator as WIterato
 use wirm::iterator::module_iterator::ModuleIterator;
 use wirm::opcode::{Inject, InjectAt, Instrumenter};
 use wirm::{Component, Module};
+mod hist;
 
 static STAGE: std::sync::atomic::AtomicU8 = std::sync::atomic::AtomicU8::new(0);
-fn stage(n: u8) { STAGE.store(n, std::sync::atomic::Ordering::SeqCst); }
+pub(crate) fn stage(n: u8) { STAGE.store(n, std::sync::atomic::Ordering::SeqCst); }
 fn stage_name() -> &'static str { match STAGE.load(std::sync::atomic::Ordering::SeqCst) { 0 => "build", 1 => "parse", 2 => "inject", 3 => "encode", 4 => "encode2", _ => "decode" } }
 const FID: u32 = 3; // the instrumented function (imports: 0 cond, 1 probe, 2 obs)
 
@@ -259,7 +260,7 @@ fn decode(bytes: &[u8]) -> Value {
     json!({ "ops": ops, "locals": locals, "types": types, "nimports": nimports })
 }
 
-fn validate(bytes: &[u8]) -> Result<(), String> {
+pub(crate) fn validate(bytes: &[u8]) -> Result<(), String> {
     wasmparser::Validator::new_with_features(wasmparser::WasmFeatures::all())
         .validate_all(bytes)
         .map(|_| ())
@@ -362,7 +363,7 @@ fn main() {
     let mut out = Vec::with_capacity(cases.len());
     for c in &cases {
         stage(0);
-        let r = catch_unwind(AssertUnwindSafe(|| run_case(c)));
+        let r = catch_unwind(AssertUnwindSafe(|| if c["kind"].as_str() == Some("hist") { hist::run_hist(c) } else { run_case(c) }));
         match r {
             Ok(v) => out.push(v),
             Err(e) => {
